@@ -1,0 +1,256 @@
+//go:build verif
+
+package goatlang
+
+import (
+	"fmt"
+	"io/fs"
+	"os"
+	"path/filepath"
+	"strings"
+)
+
+// Verification hooks (build tag "verif" only). Nothing here changes the
+// behaviour of the package unless a harness installs a budget or a tracer.
+
+// VerifStepInfo describes the instruction about to be executed.
+type VerifStepInfo struct {
+	CallDepth int    // number of active script calls (len(backtrace))
+	N         int    // index into the frame's code
+	CodeCap   int    // cap(frame.Codes): identifies the position of the frame's code in its backing array
+	CodeLen   int    // len(frame.Codes)
+	Op        string // opcode name
+	A, B, C   int
+	StackLen  int // len(stack) before the instruction
+	BaseN     int // index of the frame's first local slot
+	Func      string
+	Line      int
+}
+
+var verifBudget int64 = -1
+var verifTracer func(VerifStepInfo)
+
+// VerifSetBudget limits the number of instructions executed from now on
+// (negative: unlimited). When the budget is used up the running script panics,
+// which the VM reports as an ordinary run error.
+func VerifSetBudget(n int64) { verifBudget = n }
+
+// VerifBudgetLeft returns the remaining budget.
+func VerifBudgetLeft() int64 { return verifBudget }
+
+// VerifSetTracer installs (or with nil removes) a per-instruction tracer.
+func VerifSetTracer(f func(VerifStepInfo)) { verifTracer = f }
+
+const VerifBudgetMsg = "verif: instruction budget exhausted"
+
+func verifStep(v *VM) {
+	if verifBudget >= 0 {
+		if verifBudget == 0 {
+			panic(VerifBudgetMsg)
+		}
+		verifBudget--
+	}
+	if verifTracer != nil {
+		i := &v.frame.Codes[v.frame.N]
+		_, fn, line, _ := i.Pos.info(v.globals)
+		verifTracer(VerifStepInfo{
+			CallDepth: len(v.backtrace),
+			N:         v.frame.N,
+			CodeCap:   cap(v.frame.Codes),
+			CodeLen:   len(v.frame.Codes),
+			Op:        i.Code.String(),
+			A:         int(i.A), B: int(i.B), C: int(i.C),
+			StackLen: len(v.stack),
+			BaseN:    v.frame.BaseN,
+			Func:     fn,
+			Line:     line,
+		})
+	}
+}
+
+// VerifIns is an exported view of one compiled instruction.
+type VerifIns struct {
+	Op      string
+	Code    int
+	A, B, C int
+	File    string
+	Func    string
+	Line    int
+	Col     int
+}
+
+func verifExport(g *lookup, in []instruction) []VerifIns {
+	out := make([]VerifIns, len(in))
+	for n, i := range in {
+		file, fn, line, col := "", "", 0, 0
+		if !i.Pos.IsZero() {
+			file, fn, line, col = i.Pos.info(g)
+		}
+		out[n] = VerifIns{Op: i.Code.String(), Code: int(i.Code), A: int(i.A), B: int(i.B), C: int(i.C), File: file, Func: fn, Line: line, Col: col}
+	}
+	return out
+}
+
+func verifImport(in []VerifIns) []instruction {
+	out := make([]instruction, len(in))
+	for n, i := range in {
+		out[n] = instruction{Code: code(i.Code), A: reg(i.A), B: reg(i.B), C: reg(i.C), Pos: pos(uint64(i.Line)<<16 | uint64(i.Col))}
+	}
+	return out
+}
+
+// VerifSplit exposes splitParams (packed operand pairs of FUNC, ITER, FASTCALLATTR).
+func VerifSplit(v int) (int, int) { a, b := splitParams(reg(v)); return int(a), int(b) }
+
+// VerifOpNames lists every opcode name known to the VM.
+func VerifOpNames() map[int]string {
+	res := map[int]string{}
+	for c, s := range codeToString {
+		res[int(c)] = s
+	}
+	return res
+}
+
+// VerifOptimize runs the real peephole optimizer over an instruction list.
+func VerifOptimize(in []VerifIns) []VerifIns {
+	c := &compiler{Optimize: true}
+	res := c.optimize(verifImport(in))
+	out := make([]VerifIns, len(res))
+	for n, i := range res {
+		out[n] = VerifIns{Op: i.Code.String(), Code: int(i.Code), A: int(i.A), B: int(i.B), C: int(i.C), Line: int((i.Pos >> 16) & 0xffff), Col: int(i.Pos & 0xffff)}
+	}
+	return out
+}
+
+func verifLoadPkgs(sys fs.FS, arg string) (pkgList, error) {
+	arg = strings.Replace(filepath.Clean(arg), string(os.PathSeparator), "/", -1)
+	f := loadPackage
+	if strings.HasSuffix(arg, ".go") {
+		f = loadFile
+	}
+	return f(sys, arg)
+}
+
+// VerifDisasm loads and compiles a package exactly as Load does (with the
+// optimizer on or off) and returns the instruction list and slot count
+// without running it.
+func (v *VM) VerifDisasm(sys fs.FS, arg string, optimize bool) ([]VerifIns, int, error) {
+	pkgs, err := verifLoadPkgs(sys, arg)
+	if err != nil {
+		return nil, 0, fmt.Errorf("error in load: %w", err)
+	}
+	codes, slots, err := compilePkgs(v.globals, pkgs, optimize)
+	if err != nil {
+		return nil, 0, fmt.Errorf("error in compile: %w", err)
+	}
+	return verifExport(v.globals, codes), slots, nil
+}
+
+// VerifLoad is Load with the optimizer selectable. It also reports the
+// compiled code (as run) through dis when dis is not nil.
+func (v *VM) VerifLoad(sys fs.FS, arg string, optimize bool, dis *[]VerifIns) error {
+	pkgs, err := verifLoadPkgs(sys, arg)
+	if err != nil {
+		return fmt.Errorf("error in load: %w", err)
+	}
+	codes, slots, err := compilePkgs(v.globals, pkgs, optimize)
+	if err != nil {
+		return fmt.Errorf("error in compile: %w", err)
+	}
+	if dis != nil {
+		*dis = verifExport(v.globals, codes)
+	}
+	rets, err := v.run(codes, slots)
+	if err != nil {
+		return fmt.Errorf("error in run: %w", err)
+	}
+	if len(rets) > 0 {
+		return fmt.Errorf("unexpected returns: %v", rets)
+	}
+	return nil
+}
+
+// VerifEval is Eval with the optimizer selectable.
+func (v *VM) VerifEval(sys fs.FS, fname, input string, optimize bool, dis *[]VerifIns, options ...RunOption) (rets []Value, err error) {
+	var opts runConfig
+	for _, o := range options {
+		o(&opts)
+	}
+	const pkgName = "main"
+	tokens, err := tokenize(fname, input)
+	if err != nil {
+		return nil, fmt.Errorf("error in tokenize: %w", err)
+	}
+	tree, err := parse(tokens)
+	if err != nil {
+		return nil, fmt.Errorf("error in parse: %w", err)
+	}
+	pkgs, err := loadImports(sys, "", tree)
+	if err != nil {
+		return nil, fmt.Errorf("error in loadImports: %w", err)
+	}
+	codes, slots, err := compilePkgs(v.globals, pkgs[:len(pkgs)-1], optimize)
+	if err != nil {
+		return nil, fmt.Errorf("error in compile (imports): %w", err)
+	}
+	_, err = v.run(codes, slots)
+	if err != nil {
+		return nil, fmt.Errorf("error in run (imports): %w", err)
+	}
+	if opts.evalImports == nil {
+		opts.evalImports = map[string]string{}
+	}
+	cmp := &compiler{
+		Globals:     v.globals,
+		Locals:      newLookup(),
+		Imports:     opts.evalImports,
+		Optimize:    optimize,
+		PackageName: pkgName,
+		ExportName:  pkgName,
+	}
+	codes, slots, err = cmp.run(pkgs[len(pkgs)-1])
+	if err != nil {
+		return nil, fmt.Errorf("error in compile: %w", err)
+	}
+	if dis != nil {
+		*dis = verifExport(v.globals, codes)
+	}
+	rets, err = v.run(codes, slots)
+	if err != nil {
+		return nil, fmt.Errorf("error in run: %w", err)
+	}
+	return rets, nil
+}
+
+// VerifTypeOf returns the dynamic type of a value as the VM names it.
+func (v *VM) VerifTypeOf(val Value) string { return val.t.str(v.globals) }
+
+// VerifGlobalNames lists all global keys (used to project the global state).
+func (v *VM) VerifGlobalNames() []string {
+	return append([]string(nil), v.globals.indexToKey...)
+}
+
+// VerifIntMap wraps the unexported robin-hood table for model-based checking.
+type VerifIntMap struct{ m intMap }
+
+type VerifBucket struct {
+	Distance int
+	Key      int
+	Value    Value
+}
+
+func VerifNewIntMap(alloc int) *VerifIntMap    { return &VerifIntMap{m: newIntMap(alloc)} }
+func (w *VerifIntMap) Set(k int, v Value)      { w.m.Set(k, v) }
+func (w *VerifIntMap) Assign(k int, v Value)   { w.m.Assign(k, v) }
+func (w *VerifIntMap) Get(k int) (Value, bool) { return w.m.Get(k) }
+func (w *VerifIntMap) Delete(k int)            { w.m.Delete(k) }
+func (w *VerifIntMap) Len() int                { return w.m.Len() }
+func (w *VerifIntMap) Copy() *VerifIntMap      { return &VerifIntMap{m: w.m.Copy()} }
+func (w *VerifIntMap) Size() int               { return w.m.size }
+func (w *VerifIntMap) Buckets() []VerifBucket {
+	out := make([]VerifBucket, len(w.m.pairs))
+	for i, p := range w.m.pairs {
+		out[i] = VerifBucket{Distance: p.distance, Key: p.key, Value: p.value}
+	}
+	return out
+}
